@@ -30,6 +30,7 @@ type Options struct {
 	RTImport     string            // import path of the run-time package providing StepFunc / Keys
 	StepFunc     string            // "Tick" or "Yield"; "" = no step insertion
 	StepArg      bool              // pass the site number: rt.Yield(<n>)
+	StmtSteps    bool              // additionally insert a step before EVERY statement of every block (finer preemption points)
 	MapRanges    bool              // rewrite range-over-map loops
 	KnobConst    string            // name of an integer constant to turn into `var X = rt.Knob(<old>)`; "" = none
 	DeferAtExit  bool              // insert `defer rt.AtExit(-1)` at the top of main.main
@@ -264,9 +265,37 @@ func rewriteFile(o Options, c *Census, p *packages.Package, f *ast.File, fname s
 		}
 	}
 
+	stmtSteps := func(list []ast.Stmt) {
+		if !o.StmtSteps || o.StepFunc == "" {
+			return
+		}
+		for i, st := range list {
+			if i == 0 {
+				continue // the block's own entry step covers the first statement
+			}
+			switch st.(type) {
+			case *ast.DeclStmt, *ast.EmptyStmt, *ast.CaseClause, *ast.CommClause:
+				continue // (the body of a switch/select is a block whose "statements" are clauses)
+			}
+			arg := ""
+			if o.StepArg {
+				arg = strconv.Itoa(len(c.StepSiteNames))
+			}
+			c.StepSiteNames = append(c.StepSiteNames, site(st.Pos())+" "+p.Name+"."+curFunc)
+			fe.ins(off(st.Pos()), rtAlias+"."+o.StepFunc+"("+arg+"); ")
+			needRT = true
+			c.StepSites++
+		}
+	}
 	mapN := 0
 	ast.Inspect(f, func(n ast.Node) bool {
 		switch x := n.(type) {
+		case *ast.BlockStmt:
+			stmtSteps(x.List)
+		case *ast.CaseClause:
+			stmtSteps(x.Body)
+		case *ast.CommClause:
+			stmtSteps(x.Body)
 		case *ast.FuncDecl:
 			curFunc = x.Name.Name
 			if x.Recv != nil && len(x.Recv.List) == 1 {
